@@ -852,7 +852,18 @@ type hop struct {
 	Coin int    // index into the coins of the history (push)
 }
 
+// history runs one operation history; a panic anywhere in it (the implementation's: the harness code itself
+// indexes nothing it has not checked) is a finding of its own with the history as replay -- round 4: a coin set
+// kept in a slice with a head index made Coins() / NewMsgTxWithInputCoins panic after push, push, shift, shift,
+// pop, and an unrecovered panic here would lose every violation recorded before it.
 func history(pl *pool, init []tcoin, extra []tcoin, ops []hop, corr bool) {
+	if p, msg := vh.Catch(func() { historyBody(pl, init, extra, ops, corr) }); p {
+		rep.Violate("C19:coinset:panic", "a coin-set operation panicked in a history of PushCoin / PopCoin / ShiftCoin / Coins / NewMsgTxWithInputCoins: "+msg,
+			map[string]interface{}{"family": "history", "init_value_confs": init, "pushable_value_confs": extra, "ops": ops, "failing_step": -2, "panic": msg})
+	}
+}
+
+func historyBody(pl *pool, init []tcoin, extra []tcoin, ops []hop, corr bool) {
 	all := append(append([]tcoin(nil), init...), extra...)
 	all = append([]tcoin(nil), all...) // "confs" operations update the copy
 	cs := pl.coins(all)
